@@ -122,6 +122,18 @@ def emit() -> dict[str, str]:
     ma = _func(srv, "_maybe_attach_shm")
     md_dec = [c for h in _guard_around(ma, "shm_name_bytes.decode") if isinstance(h.body[-1], ast.Return) for c in _names(h)]
     att = [c for h in _guard_around(ma, "ShmSegment.attach") if isinstance(h.body[-1], ast.Return) for c in _names(h)]
+    # shm.py `ShmSegment.attach`: classes of `ShmAllocator(buf, size)` (explicit ValueErrors, struct.error from the header
+    # unpack of a too-small mapping) that are re-raised as ValueError after the mapping is closed
+    shm_tree = ast.parse((REPO / "vgi_rpc/shm.py").read_text())
+    at = _func(shm_tree, "attach")
+    att_conv = [c for h in _guard_around(at, "ShmAllocator") if isinstance(h.body[-1], ast.Raise)
+                and isinstance(h.body[-1].exc, ast.Call) and ast.unparse(h.body[-1].exc.func) == "ValueError" for c in _names(h)]
+    # ... and what `ShmAllocator.__init__` can raise: the struct unpack, then explicit raises
+    ai = next(n for n in ast.walk(_func(shm_tree, "ShmAllocator") if False else shm_tree)
+              if isinstance(n, ast.ClassDef) and n.name == "ShmAllocator")
+    init = next(n for n in ai.body if isinstance(n, ast.FunctionDef) and n.name == "__init__")
+    alloc_raises = sorted({lean_name(ast.unparse(n.exc.func)) for n in ast.walk(init) if isinstance(n, ast.Raise) and isinstance(n.exc, ast.Call)}
+                          | ({"StructError"} if any("unpack_from" in c for c in _calls(init)) else set()))
     # _read_request
     r = _func(wire, "_read_request")
     first = [c for h in _guard_around(r, "reader.read_next_batch_with_custom_metadata") if isinstance(h.body[-1], ast.Raise)
@@ -164,7 +176,7 @@ def emit() -> dict[str, str]:
     asserts_len = any(isinstance(n, ast.Assert) and "length_bytes" in ast.unparse(n.test) for n in ast.walk(rs))
 
     every = [x for xs in ([c for hs in serve_handlers for c in hs], [c for hs, _ in rr for c in hs], version_gate, validation, method_call,
-                          md_dec, att, first, trace, meth, ptr, rel, aspy, drain_skips, drain_ends, first_skips, first_ends) for x in xs]
+                          md_dec, att, att_conv, alloc_raises, first, trace, meth, ptr, rel, aspy, drain_skips, drain_ends, first_skips, first_ends) for x in xs]
     unknown = sorted(set(every) - {lean_name(k) for k in known})
     if unknown:
         raise RuntimeError(f"handler names outside the modelled class list: {unknown}")
@@ -202,6 +214,10 @@ def methodCall : List Exc := {_lst(method_call)}
 /-- `_maybe_attach_shm`: classes answered with `return None` around the name/size decode and around `ShmSegment.attach` -/
 def attachMdDecode : List Exc := {_lst(md_dec)}
 def attachGuard : List Exc := {_lst(att)}
+/-- `ShmSegment.attach`: classes raised by `ShmAllocator(buf, size)` that are turned into ValueError (mapping closed first);
+`allocInitRaises`: what `ShmAllocator.__init__` can raise (explicit `raise`s + the header `unpack_from`) -/
+def attachConvert : List Exc := {_lst(att_conv)}
+def allocInitRaises : List Exc := {_lst(alloc_raises)}
 
 /-- `_read_request`: classes turned into an RpcError reply around the first read / method-name decode / shm pointer
 resolution / kwargs extraction; classes suppressed around the trace-context decode -/
